@@ -95,7 +95,8 @@ func (actScen) Gen(r *Rng, cfg GenConfig) any {
 		}
 		if r.Chance(1, 5) {
 			// a plain command whose text and output contain characters that matter to printf-style formatting
-			t.Raw = append(t.Raw, Pick(r, []string{"echo progress 100% done", "echo 50%d and %s and %v", "echo tab-and-percent %", "echo a%%b"}))
+			t.Raw = append(t.Raw, Pick(r, []string{"echo progress 100% done", "echo 50%d and %s and %v", "echo tab-and-percent %", "echo a%%b",
+				`echo 'a\u0026b \u003c \u003e'`, `echo 'back\\slash and "quote"'`}))
 		}
 		c.Prog.Tasks = append(c.Prog.Tasks, t)
 	}
@@ -109,7 +110,8 @@ func (actScen) Gen(r *Rng, cfg GenConfig) any {
 	}
 	c.Prog.Layout = r.Intn(6)
 	c.Tree["a.txt"], c.Tree["b.txt"] = "1", "1"
-	for _, d := range Subset(r, []string{".gitignore", ".env", "sub/notes.txt", "out.bin", "sub/deep/spokfile.bak", "sub/.gitignore", "README"}, 1, 2) {
+	for _, d := range Subset(r, []string{".gitignore", ".env", "sub/notes.txt", "out.bin", "sub/deep/spokfile.bak", "sub/.gitignore", "README",
+		"spokfile.tmp", "spokfile~", "spokfile.bak", ".spokfile.swp", "spokfile.orig", "spokfile.new"}, 1, 3) {
 		c.Tree[d] = Pick(r, []string{"decoy\n", "node_modules/\n", "UNRELATED=1\n"})
 		if strings.HasSuffix(d, ".env") {
 			c.Tree[d] = "UNRELATED=1\n"
@@ -664,7 +666,11 @@ func (s *projState) judgeReport(res *Result, c *ActCase, ai int, a Act, obs *Obs
 		for i, cr := range r.Results {
 			if i >= t.NCmd {
 				raw := t.Raw[i-t.NCmd]
-				want := strings.Join(strings.Fields(strings.TrimPrefix(raw, "echo ")), " ") + "\n"
+				arg := strings.TrimPrefix(raw, "echo ")
+				want := strings.Join(strings.Fields(arg), " ") + "\n"
+				if len(arg) >= 2 && strings.HasPrefix(arg, "'") && strings.HasSuffix(arg, "'") {
+					want = arg[1:len(arg)-1] + "\n" // one single-quoted word: the shell removes the quotes, nothing else
+				}
 				if cr.Cmd != raw || cr.Stdout != want || cr.Stderr != "" || cr.Status != 0 {
 					res.violate("C20", "json-reports-every-command", sig, "act%d: task %s command %q reported as cmd=%q stdout=%q stderr=%q status=%d; it prints %q", ai, r.Task, raw, cr.Cmd, cr.Stdout, cr.Stderr, cr.Status, want)
 					return true
